@@ -31,7 +31,7 @@ fn to_vector_colmajor_3x2() {
 /// `copy_matrix_to_column` stacks an N x S matrix into one column: element (i, j) lands at row j * N + i (2 x 3: three
 /// right-hand sides, the smallest shape where a wrong block offset shows)
 #[kani::proof]
-#[kani::unwind(8)]
+#[kani::unwind(14)]
 fn copy_matrix_to_column_2x3() {
     let a: [u64; 6] = kani::any();
     let src = DMatrix::from_column_slice(2, 3, &a);
